@@ -317,3 +317,14 @@ EXPLANATION += (" Row-loop isolation (E2-isolation): in the `for i in 0..rows(x)
                 "at row i only: a buffer hoisted out of the loop and only partly reset makes the output for a row depend on the rows "
                 "processed before it.")
 TECHNIQUE += "; loop-carried-state (iteration isolation) rule on the row loops"
+
+
+# ------------------------------------------------------------------ generic: rows/cols (outer/inner) mix-up of locally allocated buffers
+_run_pre_dimension = run
+DIMENSION_FILES = ['src/algorithm/sort/quick_sort.rs', 'src/tree/decision_tree_classifier.rs', 'src/tree/decision_tree_regressor.rs']
+
+
+def run(ck, prog):
+    _run_pre_dimension(ck, prog)
+    from sa import dimension
+    dimension.run_rule(ck, prog, set(DIMENSION_FILES))
